@@ -4,7 +4,8 @@
 // writer ops  (kind: m = CMsgPackStringWriter, s = CMsgPackStreamWriter)     -> hex bytes | ERR <cat>
 //   w <kind> nil | bool <0|1> | u8|u16|u32|u64 <hex> | i8|i16|i32|i64 <shex> | f32|f64 <hexbits>
 //            | str <hexbytes> | strn <hexlen> | arr|map|bin <hexlen> | ts <shex secs> <shex nanos>
-// reader ops  (kind: m = CMsgPackStringReader, s = CMsgPackStreamReader on std::istringstream,
+// reader ops  (kind: m = CMsgPackStringReader, s = CMsgPackStreamReader on std::istringstream (s<K> in q / p lines: the same, and K
+//              must be the compiled chunk_size),
 //              n<K> = CMsgPackStreamReader on a streambuf WITHOUT seek support delivering 1..3 bytes per underflow; K must be the
 //              compiled CBinaryStreamReader::chunk_size, else the answer is UNSUPPORTED;
 //              pol = two letters mismatch,overflow in T|S)
@@ -185,6 +186,7 @@ int main() {
 					if (std::stoul(t.at(1).substr(1)) != BitSerializer::Detail::CBinaryStreamReader::chunk_size) std::cout << "UNSUPPORTED\n";
 					else { NoSeekBuf buf(data); std::istream is(&buf); CMsgPackStreamReader r(is, opt); std::cout << do_seq(r, t.at(3), errpos) << "\n"; }
 				}
+				else if (t.at(1).size() > 1 && std::stoul(t.at(1).substr(1)) != BitSerializer::Detail::CBinaryStreamReader::chunk_size) std::cout << "UNSUPPORTED\n";   // s<K>
 				else { std::istringstream is(data); CMsgPackStreamReader r(is, opt); std::cout << do_seq(r, t.at(3), errpos) << "\n"; }
 			}
 			else if (t.at(0) == "r") {
